@@ -19,7 +19,7 @@ func init() {
 		ID: "C03",
 		Rule: "differential monitor: every case builds operands with position-identifying values, performs one element-wise call through the public API and compares every element (read back with At) and the shape with the reference model (explicit ravel/unravel index arithmetic + the same math.* scalar function). " +
 			"Unary ops and same-shape ops are enumerated over all shapes of rank 0..R with sizes 1..3; Add/Sub/Mul/Div over ALL broadcast-compatible shape pairs derivable from every target shape of rank 0..R' (drop leading dims and/or set dims to 1 on either side), plus sampled rank-5/6 pairs; each pair also checks 'identical to broadcasting explicitly first'. " +
-			"A case is non-trivial when the result has >= 2 elements (an element mapping exists); distinct = (op, operand shapes, value class).",
+			"A case is non-trivial when the result has >= 2 elements (an element mapping exists); distinct = (op, operand shapes, value class). Later additions: value patterns (all-equal, sorted, powers of two, denormals, extreme magnitudes, a single zero, values below the equality tolerance); sampled shapes with sizes up to 7; one long dimension (127..4097); huge tensors (16 384..72 900 elements with leading sizes that are not multiples of 8 / 32); forward chains on operands with a history; the same tensor object as every operand; tensors that took part in rejected calls are used again; operands are tracked or not by a data-derived coin.",
 		Assumptions: []string{
 			"Tensor.At and Tensor.Shape are the observation channel (their own correctness is C06's subject; a defect there shows up here as well)",
 			"scalar functions are compared with a relative tolerance of 1e-12 so a benign reformulation cannot alarm; mapping errors are certain to be seen because operand values are unique per position",
